@@ -383,6 +383,20 @@ def run_impl(prop, cases, per_case_timeout=20, workers=NPROC):
     return results
 
 
+def changed_sources(sources=None):
+    """Source files / functions of fsic whose text differs from the fingerprints recorded when the models were last validated
+    (harness/fingerprints.json).  `sources`: fsic-relative file names a property depends on (None = every file)."""
+    try:
+        cur = json.load(open(os.path.join(COQ, 'Gen', 'fingerprints.current.json')))
+        ref = json.load(open(os.path.join(HERE, 'fingerprints.json')))
+    except (OSError, ValueError):
+        return []
+    keys = [k for k in cur if k.startswith('file:')]
+    if sources is not None:
+        keys = [k for k in keys if any(k == 'file:fsic/' + s or k == 'file:' + s for s in sources)]
+    return sorted(k for k in keys if ref.get(k) != cur[k])
+
+
 # --------------------------------------------------------------------------- known findings, evidence, replay
 def load_known():
     p = os.path.join(ROOT, 'known_findings.json')
